@@ -704,8 +704,9 @@ def main(chk: Check):
                     report("the file after write_xpak is not <prefix of the old file> + <the segment>", inp)
                 elif seg_at is not None and n != seg_at:
                     report(f"old segment started at {seg_at} but the new one was written at {n}", inp)
-                elif seg_at is None and kind in ("empty", "prefix") and n != len(f):
-                    report("segment-less file: the segment was not appended at the end", inp)
+                elif seg_at is None and n != len(f) and ref_parse_kind(f) in ("oserror", "malformed"):
+                    report("file without a segment: the segment was not appended at the end "
+                           f"({len(f) - n} bytes of the archive were cut off)", inp)
     chk.count("write", len(wr_cases))
     for s in wr_cases[:: max(1, len(wr_cases) // 2)][:2]:
         chk.sample({"stream": "write", "input": s[0][:600], "impl": s[1]})
